@@ -442,6 +442,48 @@ def run(ctx):
                   'recycle() is skipped and the connection stays checked out' % (norm_text(bad[1])[:70] if bad else ''), f.loc(bad[0].stmt) if bad else f.loc())
     if n_exits < 2:
         raise AnalysisError('expected the __exit__ of BaseSession and of WebSession to recycle their connections')
+    # overrides of recycle(): the inherited release comes before anything that can raise (a listener notified first, failing,
+    # would skip it)
+    for f in repo.funcs.values():
+        if f.name != 'recycle' or f.cls is None or not f.module.name.startswith('wpull.protocol.') or f.cls.qual == bs.qual:
+            continue
+        fcfg = ctx.cfg(f)
+        sup = [n for n in fcfg.stmt_nodes() if any(norm_text(c.func) == 'super().recycle' for c in F.node_calls(n))]
+        if not sup:
+            continue
+        bad = None
+        for n in fcfg.stmt_nodes():
+            if n in sup:
+                continue
+            risky = [c for c in F.node_calls(n) if (U.attr_name(c) or (c.func.id if isinstance(c.func, ast.Name) else '')) not in TOTAL_BEFORE_RECYCLE | {'warn', 'done', '_', 'super'}]
+            if risky and fcfg.find_path(n, lambda x: x in sup, edge_ok=F.normal) is not None:
+                bad = (n, risky[0])
+        ck.expect(bad is None, 'C12-D7', f.qual, 'super().recycle() precedes everything that can raise',
+                  '`%s` runs before the inherited recycle(): if it raises, the connections of this session are never released' % (
+                      norm_text(bad[1])[:70] if bad else ''), f.loc(bad[0].stmt) if bad else f.loc())
+    # the inner session a wrapper session recycles in its __exit__ is stored in that field before anything is done with it
+    for f in repo.funcs.values():
+        if f.cls is None or not f.module.name.startswith('wpull.protocol.') or '__exit__' not in f.cls.methods:
+            continue
+        exf = f.cls.methods['__exit__']
+        inner_fields = {x.attr for x in ast.walk(exf.node) if U.is_self_attr(x) and any(U.attr_name(c) == 'recycle' and norm_text(c.func.value) == 'self.' + x.attr for c in U.calls(exf.node))}
+        for fld in sorted(inner_fields):
+            fcfg = ctx.cfg(f)
+            for n in fcfg.stmt_nodes():
+                creates = [c for c in F.node_calls(n) if U.attr_name(c) == 'session' and 'client' in norm_text(c.func.value)]
+                if not creates or not isinstance(n.stmt, ast.Assign):
+                    continue
+                locals_ = [t.id for t in n.stmt.targets if isinstance(t, ast.Name)]
+                stored_here = any(U.is_self_attr(t, fld) for t in n.stmt.targets)
+                if stored_here or not locals_:
+                    continue
+                uses = [x for x in fcfg.stmt_nodes() if x is not n and any(isinstance(c.func, ast.Attribute) and isinstance(c.func.value, ast.Name)
+                                                                           and c.func.value.id in locals_ for c in F.node_calls(x))]
+                pub = [x for x in fcfg.stmt_nodes() if isinstance(x.stmt, ast.Assign) and any(U.is_self_attr(t, fld) for t in x.stmt.targets)]
+                bad = [u for u in uses if fcfg.find_path(n, lambda x, u=u: x is u, edge_ok=F.normal, stop=lambda x: x in pub) is not None]
+                ck.expect(not bad, 'C12-D7', f.qual, 'the new session is stored in self.%s before it is used' % fld,
+                          'the session is started before it is stored in the field __exit__ recycles: when the start fails, __exit__ finds no '
+                          '(or the previous) session and the connection just acquired stays checked out', f.loc(bad[0].stmt) if bad else f.loc())
     # every protocol / web session that is created is driven inside `with` (or handed to an owner that is): __exit__ is the only
     # place that gives the connections of a failed exchange back
     n_sites = 0
@@ -614,6 +656,47 @@ def _d8_cancellation(ctx, fields):
                 ck.expect(p is None, 'C12-D8', m.qual, '%s is released when the work after the check-out fails' % nm,
                           'an exception (or cancellation) after the connection was checked out leaves it checked out for ever: it is '
                           'neither returned to the caller nor released', m.loc(st), path=describe_path(p) if p else None)
+                # ... and is closed before it goes back: a connection whose tunnel / TLS set-up failed half-way is still open and
+                # marked as proxied; taken out of the pool again it would carry the next https request in clear text
+                for h in [h for t in walk_no_nested(m.node) if isinstance(t, ast.Try) for h in t.handlers
+                          if any(gives_back_call(c, nm) for c in U.calls(h))]:
+                    closes = [c for c in U.calls(h) if U.attr_name(c) == 'close' and norm_text(c.func.value) == nm]
+                    rel = [c for c in U.calls(h) if gives_back_call(c, nm)]
+                    okc = bool(closes) and min(c.lineno for c in closes) <= min(c.lineno for c in rel)
+                    ck.expect(okc, 'C12-D8', m.qual, '%s is closed before it is given back after a failed set-up' % nm,
+                              'the failure handler returns the connection to the pool without closing it: the pool hands out an open, '
+                              'half set-up connection (no tunnel, no TLS) and the next request for that host is written to the proxy as it is', m.loc(h))
+            # (e) wrapper maps: what release() pops, acquire must have stored on every path that hands the wrapper out
+            maps = {U.attr_name(c) and c.func.value.attr for mm in ci.methods.values() if mm.name in ('release', 'no_wait_release')
+                    for c in U.calls(mm.node) if U.attr_name(c) == 'pop' and U.is_self_attr(getattr(c.func, 'value', None))}
+            for mp in sorted(x for x in maps if x):
+                if m.name not in ('acquire', 'acquire_proxy'):
+                    continue
+                for rn in [n for n in cfg.nodes if n.kind == 'return' and n.stmt.value is not None]:
+                    v = rn.stmt.value
+                    # `return ssl_connection` where ssl_connection is the wrapper of the pooled connection
+                    wrappers = set()
+                    for st2 in walk_no_nested(m.node):
+                        if isinstance(st2, ast.Assign) and len(st2.targets) == 1 and isinstance(st2.targets[0], ast.Name):
+                            vt = norm_text(st2.value)
+                            if 'start_tls' in vt or vt.endswith('.wrapped_connection'):
+                                wrappers.add(st2.targets[0].id)
+                    hands_wrapper = (isinstance(v, ast.Name) and v.id in wrappers) or 'wrapped_connection' in norm_text(v)
+                    if not hands_wrapper:
+                        continue
+
+                    def stores_map(x, mp=mp):
+                        stx = x.stmt
+                        return isinstance(stx, ast.Assign) and any(isinstance(t, ast.Subscript) and U.is_self_attr(t.value, mp) for t in stx.targets)
+                    p2 = cfg.find_path(cfg.entry, lambda x, rn=rn: x is rn, edge_ok=F.normal, stop=stores_map)
+                    ck.expect(p2 is None, 'C12-D8', m.qual, 'self.%s[wrapper] is stored on every path that returns the wrapper' % mp,
+                              'a path hands out the wrapping connection without recording which pooled connection it wraps: release() then '
+                              'passes the wrapper itself to the base pool (KeyError in the deferred release, the real connection stays busy)',
+                              m.loc(rn.stmt), path=describe_path(p2) if p2 else None)
+
+
+def gives_back_call(c, nm):
+    return U.attr_name(c) in ('release', 'no_wait_release') and c.args and norm_text(c.args[0]) == nm
 
 
 def _ord(val, a, b):
